@@ -88,6 +88,8 @@ impl<'a> GeneratorState<'a> {
         high_byte: bool,
     ) -> Result<bool, Error> {
         let dasm_operand: String;
+        // set when the operand is written as an immediate (#n, #<name, #>name)
+        let mut immediate = false;
         let signed;
         let nb_bytes;
 
@@ -123,6 +125,7 @@ impl<'a> GeneratorState<'a> {
                     true => (v >> 8) & 0xff,
                 };
                 signed = false;
+                immediate = true;
                 dasm_operand = format!("#{}", vx);
             }
             ExprType::Tmp(s) => {
@@ -184,17 +187,22 @@ impl<'a> GeneratorState<'a> {
                         if !*eight_bits {
                             if high_byte {
                                 if offset != 0 {
+                                    immediate = true;
                                     dasm_operand = format!("#>({}+{})", variable, offset);
                                 } else {
+                                    immediate = true;
                                     dasm_operand = format!("#>{}", variable);
                                 }
                             } else if offset != 0 {
+                                immediate = true;
                                 dasm_operand = format!("#<({}+{})", variable, offset);
                             } else {
+                                immediate = true;
                                 dasm_operand = format!("#<{}", variable);
                             }
                             nb_bytes = 2;
                         } else if high_byte {
+                            immediate = true;
                             dasm_operand = "#0".to_string();
                             nb_bytes = 2;
                         } else {
@@ -214,6 +222,7 @@ impl<'a> GeneratorState<'a> {
                     }
                     VariableType::Short => {
                         if *eight_bits && high_byte {
+                            immediate = true;
                             dasm_operand = "#0".to_string();
                             nb_bytes = 2;
                         } else {
@@ -236,17 +245,22 @@ impl<'a> GeneratorState<'a> {
                         if !*eight_bits && v.var_const {
                             if high_byte {
                                 if offset != 0 {
+                                    immediate = true;
                                     dasm_operand = format!("#>({}+{})", variable, offset);
                                 } else {
+                                    immediate = true;
                                     dasm_operand = format!("#>{}", variable);
                                 }
                             } else if offset != 0 {
+                                immediate = true;
                                 dasm_operand = format!("#<({}+{})", variable, offset);
                             } else {
+                                immediate = true;
                                 dasm_operand = format!("#<{}", variable);
                             }
                             nb_bytes = 2;
                         } else if high_byte && *eight_bits {
+                            immediate = true;
                             dasm_operand = "#0".to_string();
                             nb_bytes = 2;
                         } else if *eight_bits && !v.var_const {
@@ -353,6 +367,7 @@ impl<'a> GeneratorState<'a> {
                         _ => (),
                     }
                 } else if high_byte {
+                    immediate = true;
                     dasm_operand = "#0".to_string();
                     nb_bytes = 2;
                 } else if v.var_type == VariableType::CharPtr && !v.var_const {
@@ -472,6 +487,7 @@ impl<'a> GeneratorState<'a> {
                     && v.var_type != VariableType::CharPtrPtr
                     && v.var_type != VariableType::ShortPtr
                 {
+                    immediate = true;
                     dasm_operand = "#0".to_string();
                     nb_bytes = 2;
                 } else {
@@ -519,6 +535,14 @@ impl<'a> GeneratorState<'a> {
                 nb_bytes = 1;
             }
             _ => unreachable!(),
+        }
+
+        if immediate && matches!(mnemonic, STA | STX | STY | INC | DEC) {
+            // A store or a read-modify-write needs a memory location (&x = 3; store(3); the high
+            // byte of an 8 bits variable as destination of a 16 bits value...)
+            return Err(self
+                .compiler_state
+                .syntax_error("This expression is not assignable", pos));
         }
 
         let mut s = mnemonic.to_string();
